@@ -30,6 +30,7 @@ func JoinTo(w SafeWriter, delim RedactableString, values interface{}) {
 	if v.Kind() != reflect.Slice {
 		// Note a slice: just print the value as-is.
 		w.Print(values)
+		return
 	}
 	for i, l := 0, v.Len(); i < l; i++ {
 		if i > 0 {
